@@ -11,7 +11,7 @@ use vbase::{ensure, fail};
 use crate::lazyhelp::{gen_confusable_keys, gen_skip_stress, perturb, perturb_raw, to_pointer};
 use crate::sx::{cmp_node, walk};
 
-pub const RULE: &str = "cases are (document, path) pairs: well-formed documents (generated with tricky strings, long siblings, other-kind containers, alignment prefixes; skip-stress documents with features at block edges; a positional sweep placing each string feature at every position 0..=130 of a skipped sibling; a duplicate-key subset; shallow documents with 64..1030 tiny containers before the targets; objects whose member names are confusable between raw spelling and decoded text or share their first 16 and last 8 bytes) x every path of the reference tree (cap 64 per document) plus perturbed paths (missing key, index = len, index into object, key into array, one step too deep, empty key, key prefix/extension, the raw source spelling of an escaped member name and its prefixes ending in a backslash; for documents with more than 64 paths also the last paths in document order). Each pair goes through get over &[u8]/&str/&String/&Bytes/&FastStr, get_from_str/slice/bytes/faststr, all *_unchecked forms, Value::pointer and stepwise Value::get, LazyValue::pointer, OwnedLazyValue::pointer. Expected: the path resolves in the reference tree (first member wins) <=> Ok/Some, raw text == exact source span (pointer arithmetic for borrowing carriers), DOM subtree equal to the reference node. Non-trivial = path length >= 1 with at least one sibling skipped before the target; distinct by (document, path).";
+pub const RULE: &str = "cases are (document, path) pairs: well-formed documents (generated with tricky strings, long siblings, other-kind containers, alignment prefixes; skip-stress documents with features at block edges; a positional sweep placing each string feature at every position 0..=130 of a skipped sibling; a duplicate-key subset; shallow documents with 64..1030 tiny containers before the targets; documents of 4..64 KiB filled with multi-byte characters in front of the targets; objects with 16..104 members in non-lexicographic order; objects whose member names are confusable between raw spelling and decoded text or share their first 16 and last 8 bytes) x every path of the reference tree (cap 64 per document) plus perturbed paths (missing key, index = len, index into object, key into array, one step too deep, empty key, key prefix/extension, the raw source spelling of an escaped member name and its prefixes ending in a backslash; for documents with more than 64 paths also the last paths in document order). Each pair goes through get over &[u8]/&str/&String/&Bytes/&FastStr, get_from_str/slice/bytes/faststr, all *_unchecked forms, Value::pointer and stepwise Value::get, LazyValue::pointer, OwnedLazyValue::pointer. Expected: the path resolves in the reference tree (first member wins) <=> Ok/Some, raw text == exact source span (pointer arithmetic for borrowing carriers), DOM subtree equal to the reference node. Non-trivial = path length >= 1 with at least one sibling skipped before the target; distinct by (document, path).";
 pub const ASSUMPTIONS: &[&str] = &["refjson parser / lookup (first member wins)", "unchecked variants are called on well-formed UTF-8 input only (their contract)"];
 
 fn skipped_sibling(root: &Node, p: &[PathElem]) -> bool {
@@ -177,7 +177,7 @@ pub fn oracle(doc: &[u8], obs: &mut Obs) -> Result<(), Fail> {
 }
 
 pub fn subs() -> Vec<Sub<'static>> {
-    ["docs", "stress", "positional", "dup-keys", "golden", "many-small", "confusable-keys", "brackets"].iter().map(|n| Sub { name: n, oracle: &oracle, minimise_bytes: false }).collect()
+    ["docs", "stress", "positional", "dup-keys", "golden", "many-small", "confusable-keys", "brackets", "large-utf8", "wide-objects"].iter().map(|n| Sub { name: n, oracle: &oracle, minimise_bytes: false }).collect()
 }
 
 fn sub(name: &str) -> Sub<'static> {
@@ -197,6 +197,8 @@ pub fn run(ctx: &Ctx) {
 
     ctx.search(&sub("many-small"), "many-small", ctx.n(4_500, 60_000), 200, &|src: &mut Src| gens::gen_many_small(src));
     ctx.search(&sub("brackets"), "bracket-stress", ctx.n(90_000, 800_000), 300, &|src: &mut Src| crate::lazyhelp::gen_bracket_stress(src));
+    ctx.search(&sub("large-utf8"), "large-utf8", ctx.n(400, 6_000), 120, &|src: &mut Src| gens::gen_large_utf8(src));
+    ctx.search(&sub("wide-objects"), "wide-objects", ctx.n(6_000, 80_000), 200, &|src: &mut Src| gens::gen_wide_object(src));
     ctx.search(&sub("confusable-keys"), "confusable", ctx.n(60_000, 600_000), 200, &|src: &mut Src| gen_confusable_keys(src));
 
     // positional sweep: a feature at every position of a skipped sibling string
